@@ -736,7 +736,8 @@ def rule_encaps(repo):
 # ====================================================================== R-RNG
 def rule_rng(repo):
     F = repo.F
-    R = Rule("R-RNG", "random field elements are the remainder of a 512-bit draw by the caller's modulus", floor=1)
+    R = Rule("R-RNG", "random field elements are the remainder of a 512-bit draw by the caller's modulus; no function draws from the RNG inside a loop whose exit depends on "
+             "what was drawn (no rejection sampling: constant RNG streams are in the quantifier)", floor=6)
     b = F.bodies.get("crate::u256::U256::random")
     if b is None:
         R.fail_closed("rng:anchor", "U256::random not found")
@@ -752,6 +753,60 @@ def rule_rng(repo):
             ok = src[0] == "call" and src[1].d == "crate::u512::U512::random" and m in (("param", 2), ("init", ("deref", 2)))
     R.check(ok, "rng:U256::random", "U256::random is not `U512::random(rng).divrem(modulo).1`: %s" % show(rv, maxdepth=4)[:200], b.file_line(), b.rec["path"],
             sample={"fn": b.rec["path"], "returns": show(rv, maxdepth=4)[:200]})
+    # no rejection sampling: a loop that draws from the RNG may be left only because a counter / iterator ran out, never because of
+    # what was drawn — with a constant RNG stream (the statement quantifies over those) a redraw-until loop never ends
+    def draws(t):
+        d = (t.get("fn") or {}).get("res_def") or (t.get("fn") or {}).get("def") or ""
+        return "rand::Rng" in d or "RngCore" in d or d.startswith(("rand::", "rand_core::"))
+    drawing = set()
+    changed = True
+    while changed:
+        changed = False
+        for fb in F.fn_bodies():
+            if fb.rec["path"] in drawing:
+                continue
+            for _, t in fb.calls():
+                d = (t.get("fn") or {}).get("res_def") or (t.get("fn") or {}).get("def")
+                if draws(t) or d in drawing:
+                    drawing.add(fb.rec["path"])
+                    changed = True
+                    break
+    for path in sorted(drawing):
+        fb = F.bodies[path]
+        R.instance()
+        succ = fb.succ()
+        bad = None
+        for u in sorted(fb.reachable()):
+            for h in succ[u]:
+                if not fb.dominates(h, u):
+                    continue
+                # natural loop of the back edge u → h
+                loop, todo = {h}, [u]
+                while todo:
+                    x = todo.pop()
+                    if x in loop:
+                        continue
+                    loop.add(x)
+                    todo.extend(fb.pred()[x])
+                if not any(fb.blocks[x]["term"]["k"] == "call" and (draws(fb.blocks[x]["term"]) or ((fb.blocks[x]["term"].get("fn") or {}).get("res_def") or (fb.blocks[x]["term"].get("fn") or {}).get("def")) in drawing)
+                           for x in loop):
+                    continue
+                tb = None
+                for x in sorted(loop):
+                    outs = [y for y in succ[x] if y not in loop]
+                    t = fb.blocks[x]["term"]
+                    if not outs or t["k"] != "switch":
+                        continue          # (a call's unwind / a return inside the loop is an exit too, but returns are handled below)
+                    tb = tb or repo.tb(fb)
+                    dsc = strip(tb.operand(t["discr"], x, len(fb.blocks[x]["stmts"])))
+                    inner = strip(dsc[1]) if dsc[0] == "discr" else dsc
+                    if not (inner[0] in ("call", "mutcall") and inner[1].name == "next" and "Iterator" in (inner[1].get("trait") or inner[1].i)):
+                        bad = "the loop at block %d is left on a test of %s" % (h, show(dsc, maxdepth=3)[:80])
+                # a `return` inside the loop: leaving because of a drawn value
+                if bad is None and any(fb.blocks[x]["term"]["k"] == "return" for x in loop):
+                    bad = "the loop at block %d returns from inside" % h
+        R.check(bad is None, "rng:no-rejection:%s" % path, "%s draws from the RNG inside a loop whose exit depends on what was drawn (%s): a constant RNG stream never leaves it" % (path, bad),
+                fb.file_line(), path, sample={"fn": path, "loops_with_draws": "none, or left only when a counter / iterator runs out"} if R.discharged % 4 == 0 else None)
     return R.finish()
 
 
